@@ -334,14 +334,21 @@ func (c *Ctx) Binary(op string, a, b Value) (Value, *Throw) {
 		if !b.O.Callable {
 			return Value{}, &Throw{"TypeError"}
 		}
+		f := b.O
+		for f.Bound != nil { // 15.3.4.5.3: the target's [[HasInstance]]
+			f = f.Bound
+			if a.K == Object {
+				c.hazard(HazBoundInst)
+			}
+		}
 		if a.K != Object {
 			return Bool(false), nil
 		}
-		if b.O.ProtoProp == nil || b.O.ProtoProp.K != Object {
+		if f.ProtoProp == nil || f.ProtoProp.K != Object {
 			return Value{}, &Throw{"TypeError"}
 		}
 		for p := a.O.Proto; p != nil; p = p.Proto {
-			if p == b.O.ProtoProp.O {
+			if p == f.ProtoProp.O {
 				return Bool(true), nil
 			}
 		}
